@@ -353,7 +353,7 @@ def run(ctx):
     if not ok_lib:
         ctx.broken.append("library does not build from the working tree: " + liblog[-500:])
         return ctx.finish(LEVEL)
-    proved = ctx.prove(["Properties_C09.v"], [])
+    proved = ctx.prove(["Properties_C09.v"], ["GenPat"])
     model, ok_m, mlog = core.build_model(FAMILY)
     if not ok_m:
         ctx.broken.append("model extraction/build failed: " + mlog[-500:])
@@ -364,7 +364,7 @@ def run(ctx):
         return ctx.finish(LEVEL)
 
     known = {k["key"]: k for k in ctx.known.for_property("C09")}
-    n_docs, per_doc = (600, 12) if not ctx.thorough else (5000, 16)
+    n_docs, per_doc = (600, 12) if not ctx.thorough else (4000, 14)
     cases = corpus_cases() + make_cases(ctx, n_docs, per_doc)
     ctx.cov["samples"] = ["%s  on  %s" % (patgen.pattern_text(c["pat"]), patgen.xml_of(c["top"])[:120]) for c in cases[:3] + cases[40:49]]
     corr, scorr, orc = evaluate(ctx, cases, impl, model)
